@@ -108,6 +108,7 @@ func cmdCheck(args []string) {
 	keys := e.functionsFor(prop)
 	var obls []*Obligation
 	var limits []string
+	var bodyFallback []string
 	nFuncs := 0
 	perFunc := map[string]int{}
 	var underContract []map[string]interface{}
@@ -121,6 +122,19 @@ func cmdCheck(args []string) {
 		}
 		rec := map[string]interface{}{"function": k, "clauses": len(con.Clauses), "pos": e.posStr(e.funcs[fk].Pos())}
 		if c.limit != "" {
+			if strings.HasPrefix(k, "body:") {
+				// A body-only contract exports nothing: the callers of this
+				// function use its assumed contract whether or not the body
+				// can be checked.  When the body leaves the supported subset
+				// the function simply falls back to what it was before the
+				// body contract existed - assumed - and that is reported as an
+				// unchecked assumption, not as a violation.
+				bodyFallback = append(bodyFallback, fmt.Sprintf("%s: %s", fk, c.limit))
+				rec["engine_limit"] = c.limit
+				rec["fallback"] = "assumed"
+				underContract = append(underContract, rec)
+				continue
+			}
 			limits = append(limits, fmt.Sprintf("%s: %s", fk, c.limit))
 			rec["engine_limit"] = c.limit
 			underContract = append(underContract, rec)
@@ -260,6 +274,11 @@ func cmdCheck(args []string) {
 					limited = true
 				}
 			}
+			for _, l := range bodyFallback {
+				if strings.HasPrefix(l, fn+":") {
+					limited = true
+				}
+			}
 			if got*2 < n && !limited {
 				violations++
 				os.MkdirAll(replayDir, 0o755)
@@ -271,6 +290,10 @@ func cmdCheck(args []string) {
 		}
 	}
 	level := "proof"
+	for _, l := range bodyFallback {
+		fmt.Printf("ASSUMED property=%s function=%s (body-only contract not applicable to this tree; the function stays assumed)\n", prop, l)
+		notes = append(notes, "assumed (body-only contract outside the supported subset on this tree, nothing exported to callers): "+l)
+	}
 	for _, l := range limits {
 		fmt.Printf("UNDECIDED property=%s function=%s\n", prop, l)
 		notes = append(notes, "engine-limit: "+l)
